@@ -91,7 +91,7 @@ func verifShardCount() int {
 }
 
 // Verif_C12_K2_ArgMax: GetShard returns the index of a shard whose score is
-// maximal (which of several tied shards wins is not asserted here).
+// maximal, and among tied shards the first in key-hash order.
 func Verif_C12_K2_ArgMax() {
 	verifAbstractArithmetic()
 	n := verifShardCount()
@@ -105,6 +105,12 @@ func Verif_C12_K2_ArgMax() {
 		isMember = vnd.Or(isMember, mine)
 		for j := 0; j < n; j++ {
 			vnd.Assert(vnd.Implies(mine, verifScoreOf(shards[j], h) <= verifScoreOf(shards[i], h)), "GetShard chose a shard whose score is not maximal")
+			if j < i {
+				// ties: the shards are held in ascending KEY-HASH order (K3), and among shards of
+				// equal score the first in that order wins - a rule that does not look at the
+				// position in the configured list, so ties do not make routing order-dependent
+				vnd.Assert(vnd.Implies(mine, verifScoreOf(shards[j], h) < verifScoreOf(shards[i], h)), "among shards of equal score GetShard did not choose the first in key-hash order (ties would depend on the order in which shards are listed)")
+			}
 		}
 	}
 	vnd.Assert(isMember, "GetShard returned an index that belongs to no shard")
